@@ -13,8 +13,9 @@ MANIFEST = {
             '(single value, ALL_MASKED, mask collapse, corner cropping of any rank, packbits, antimask gather/scatter, '
             'FLOAT/INT(dtype)/BOOL steps, derivatives gathered by the parent antimask, read-only restoration, decode loops): '
             'corners_sound, packbits_roundtrip, gather_scatter, roundtrip_default (every object / shape / mask / derivative set, '
-            'values as opaque bit patterns, codecs as parameters with a round-trip contract), roundtrip_legacy, getstate_pure, '
-            'scaled_bound over the reals; tied to /repo on every run by comparing the real pickled state decoded below the '
+            'values as opaque bit patterns, codecs as parameters with a round-trip contract), roundtrip_legacy, items_transpose_roundtrip, '
+            'getstate_pure + effect_frame (effect table regenerated from the source by an AST abstract interpreter, closed by decide), '
+            'scaled_bound / float32_shortcut_bound / reference-value order theorems over the reals; tied to /repo on every run by comparing the real pickled state decoded below the '
             'codecs, and the unpickled object, with the compiled model, plus a model-independent bitwise / significant-digit oracle.',
     'design': 'DESIGN.md §3 C11, DESIGN.d/C11.md',
     'technique': 'Lean 4 proof (lists: induction; error bound: real arithmetic) + model/code correspondence below the codecs',
